@@ -430,7 +430,12 @@ class Body:
                         if re.search(pat, fn["def"]):
                             passthru = True
                 if passthru and t["args"]:
-                    out += self.origins(t["args"][0], 0, seen, through_calls)
+                    a0 = t["args"][0]
+                    if a0.get("k") in ("copy", "move"):
+                        npl = {"l": a0["pl"]["l"], "p": a0["pl"]["p"] + pl["p"]}
+                        out += self.place_origins(npl, seen, through_calls)
+                    else:
+                        out += self.origins(a0, 0, seen, through_calls)
                 else:
                     out.append(("call", bi, t, proj))
                 continue
